@@ -43,10 +43,14 @@ def run_demo(sdir, tree):
             rel = os.path.relpath(root, demo)
             os.makedirs(os.path.join(tree, rel), exist_ok=True)
             dst = os.path.join(tree, rel, f)
-            if not os.path.exists(dst):
-                shutil.copy(os.path.join(root, f), dst)
+            if not os.path.lexists(dst):
+                srcf = os.path.join(root, f)
+                if os.path.islink(srcf):
+                    os.symlink(os.readlink(srcf), dst)  # e.g. a demo package whose config.go links to cmd/hidi/config.go
+                else:
+                    shutil.copy(srcf, dst)
                 copied.append(dst)
-            if f.endswith("_test.go"):
+            if f.endswith("_test.go") and not os.path.islink(os.path.join(root, f)):
                 src = open(os.path.join(root, f)).read()
                 if re.search(r"^//go:build", src, re.M):
                     continue  # helper package of a nested demo, built by the outer test with its own tag
